@@ -2,17 +2,10 @@ import ComposeVerif.Model.C11Normalize
 /-!
 # C11 — negative facts (concrete witnesses) and regression witnesses
 
-<<<<<<< HEAD
 `Normalize` used to be partial (DESIGN §10 #2: an empty `pid:` reached `n.(string)`; every other assertion was
 unchecked too).  /repo now carries the repairs, the model follows, and the former witnesses are kept as positive
 regression facts: `null_pid_is_ok`, `bad_link_is_error` (corpus/C11/null-pid.json, bad-link.json replay them on the
 real code).  What remains negative is the hypothesis of `normalize_idem`.
-=======
-`Normalize` is *not* total on arbitrary trees: its unchecked type assertions (`l.([]any)`, `e.(string)`,
-`b.(map[string]any)`, …) panic on shapes the schema would have rejected.  (The one shape the schema accepts —
-an empty `pid:` — was DESIGN §10 #2; it has been repaired in /repo by `fix: an empty pid … no longer panics in
-Normalize`, the model follows: `null_pid_is_ok`; corpus/C11/null-pid.json replays it on the real code.)
->>>>>>> ag2-C01
 -/
 namespace CV.C11
 open CV CV.Val
@@ -23,33 +16,19 @@ def nullPidDoc : KVs :=
 def badLinkDoc : KVs :=
   [("name", .str "proj"), ("services", .map [("a", .map [("links", .seq [.int 1])])])]
 
-<<<<<<< HEAD
 def isErr : Out KVs → Bool
   | .err _ => true
-=======
-def isPanicAt (site : String) : Out KVs → Bool
-  | .panic s => s == site
->>>>>>> ag2-C01
   | _ => false
 
 def isOk : Out KVs → Bool
   | .ok _ => true
   | _ => false
 
-<<<<<<< HEAD
 /-- an empty `pid:` is accepted -/
 theorem null_pid_is_ok : isOk (normalize pathClean [] nullPidDoc) = true := by decide
 
 /-- a shape the schema would have rejected is an error, not a panic -/
 theorem bad_link_is_error : isErr (normalize pathClean [] badLinkDoc) = true := by decide
-=======
-/-- negation of "`Normalize` never panics" (on trees that did not go through the schema): witness `links: [1]` -/
-theorem normalize_not_total : ∃ d, isPanicAt "loader.Normalize" (normalize pathClean [] d) = true :=
-  ⟨badLinkDoc, by decide⟩
-
-/-- after the repair an empty `pid:` is accepted -/
-theorem null_pid_is_ok : isOk (normalize pathClean [] nullPidDoc) = true := by decide
->>>>>>> ag2-C01
 
 def argsOfA (d : KVs) : Option Val :=
   match lookup "services" d with
